@@ -20,6 +20,8 @@ type Prog struct {
 	SSA    *ssa.Program
 	ByName map[string]*ssa.Package
 	ByPkg  map[string]*packages.Package
+	// WordBits: width of int/uint/uintptr on the target the tree was loaded for
+	WordBits int
 }
 
 // Load loads dir/... . extraEnv entries (e.g. "GOARCH=386") are appended to the environment.
@@ -52,6 +54,12 @@ func Load(dir string, modPrefix string, extraEnv ...string) (*Prog, error) {
 		p.Pkgs = append(p.Pkgs, pkgs[i])
 		p.ByName[sp.Pkg.Name()] = sp
 		p.ByPkg[sp.Pkg.Name()] = pkgs[i]
+		if pkgs[i].TypesSizes != nil {
+			p.WordBits = int(pkgs[i].TypesSizes.Sizeof(types.Typ[types.Int])) * 8
+		}
+	}
+	if p.WordBits == 0 {
+		p.WordBits = 64
 	}
 	if len(p.Pkgs) == 0 {
 		return nil, fmt.Errorf("no package of %s loaded from %s", modPrefix, dir)
